@@ -586,3 +586,19 @@ Proof.
                 (closed_loop_controls n k A B (repeat G T_) x) x) as L.
   lra.
 Qed.
+
+(* compute_sequence on a finite-horizon object does not depend on what earlier operations left on the object
+   (every Num instance): it restarts from (Rf, 0) *)
+Theorem lq_sequence_resets {T : Type} `{Num T} (n k j : nat) (beta : T) (Qm Rm A B C N Rf : list (list T))
+        tol max_iter gamma sb (st st' : lq_state) Teff x0 ws :
+  (1 <= Teff)%nat ->
+  lq_apply n k j beta Qm Rm A B C N (Some Rf) tol max_iter gamma sb st (OpSequence Teff x0 ws)
+  = lq_apply n k j beta Qm Rm A B C N (Some Rf) tol max_iter gamma sb st' (OpSequence Teff x0 ws).
+Proof.
+  intros HT. destruct st as [[P d] F], st' as [[P' d'] F']. simpl.
+  destruct (lq_recursion n k j beta Qm Rm A B C N Teff Rf nzero []) as [[[pols P1] d1]|] eqn:Er; [|reflexivity].
+  destruct (lq_recursion_policies n k j beta Qm Rm A B C N Teff _ _ _ _ _ Er) as [Hlen _].
+  destruct (rev pols) as [|Fl r] eqn:Erev.
+  - exfalso. assert (length (rev pols) = 0%nat) by (now rewrite Erev). rewrite rev_length in *. lia.
+  - reflexivity.
+Qed.
